@@ -4,7 +4,10 @@
 From Coq Require Import Lia.
 From Verif Require Import Lib.Base Lib.Utf8 Lib.GoStr Model.Cfg Gen.Tables Model.Sets Model.Percent Model.Url Model.Host Model.Machine Model.Api Model.Canon.
 
-Definition clean (s : str) : str := fst (remove_tabnl (fst (trim_c0space s))).
+(* a = the parser accepts invalid code points (then bytes are kept as they are) *)
+Definition clean_sv (a : bool) (s : str) : str := fst (remove_tabnl_sv a (fst (trim_c0space s))).
+(* for parsers that do not accept invalid code points, which includes the default one *)
+Definition clean (s : str) : str := clean_sv false s.
 
 Lemma trim_left_set_length s : (length (trim_left_set s) <= length s)%nat.
 Proof. induction s as [|b s IH]; cbn [trim_left_set length]; [lia|]. destruct (in_c0_or_space b); cbn [length]; lia. Qed.
@@ -36,6 +39,16 @@ Proof.
   - pose proof (filter_len_le f l). cbn [length] in H. lia.
 Qed.
 
+Lemma remove_sv_unchanged a s : snd (remove_tabnl_sv a s) = false -> fst (remove_tabnl_sv a s) = s.
+Proof.
+  unfold remove_tabnl_sv. destruct (remove_tabnl s) as [i ch] eqn:E. destruct ch; cbn [andb].
+  - destruct (negb a && negb (valid_utf8 s)); cbn [snd]; discriminate.
+  - cbn [fst snd]. intros _. pose proof (f_equal fst E) as E1. cbn [fst] in E1. rewrite <- E1.
+    unfold remove_tabnl in *. cbn [fst snd] in *. injection E as _ E2.
+    apply Bool.negb_false_iff in E2. apply Z.eqb_eq in E2. unfold len in E2. apply Nat2Z.inj in E2.
+    apply filter_length_same, E2.
+Qed.
+
 Lemma remove_unchanged s : snd (remove_tabnl s) = false -> fst (remove_tabnl s) = s.
 Proof.
   unfold remove_tabnl. cbn [fst snd]. intros H. apply Bool.negb_false_iff in H. apply Z.eqb_eq in H.
@@ -52,20 +65,22 @@ Section Clean.
   Proof. unfold handleError. rewrite Hrep, Hfail. reflexivity. Qed.
 
   (* what BasicParser does once the input is clean *)
+  Let a := c_acceptInvalid c.
+
   Definition parse_clean (base : option url) (i : str) : result :=
     let u := empty_url i in
     let inp := decode i in
     run idna_raw c inp (option_map clone base) None (fuel_of (length inp)) (mk SchemeStart (-1)%Z false [] false false false u).
 
   Lemma BasicParser_factors (x : str) (base : option url) :
-    BasicParser idna_raw c x base None None = parse_clean base (clean x).
+    BasicParser idna_raw c x base None None = parse_clean base (clean_sv a x).
   Proof.
-    unfold BasicParser, parse_clean, clean.
+    unfold BasicParser, parse_clean, clean_sv, a.
     destruct (trim_c0space x) as [i ch] eqn:Et. cbn [fst].
     assert (Hi : ch = false -> i = x).
     { intros ->. pose proof (trim_unchanged x) as H. rewrite Et in H. cbn [fst snd] in H. symmetry. symmetry. apply H. reflexivity. }
     assert (Hstart : forall u0 : url, u_input u0 = i -> u0 = empty_url i ->
-      (let '(i0, changed) := remove_tabnl (u_input u0) in
+      (let '(i0, changed) := remove_tabnl_sv (c_acceptInvalid c) (u_input u0) in
        let k := fun u1 : url =>
          let inp := decode (u_input u1) in
          run idna_raw c inp (option_map clone base) None (fuel_of (length inp)) (mk SchemeStart (-1)%Z false [] false false false u1) in
@@ -73,27 +88,27 @@ Section Clean.
                        | (u', Some e) => RErr u' e
                        | (u', None) => k (set_input u' i0) end
        else k u0)
-      = (let u1 := empty_url (fst (remove_tabnl i)) in
-         let inp := decode (fst (remove_tabnl i)) in
+      = (let u1 := empty_url (fst (remove_tabnl_sv (c_acceptInvalid c) i)) in
+         let inp := decode (fst (remove_tabnl_sv (c_acceptInvalid c) i)) in
          run idna_raw c inp (option_map clone base) None (fuel_of (length inp)) (mk SchemeStart (-1)%Z false [] false false false u1))).
     { intros u0 Hin ->. cbn [u_input empty_url].
-      destruct (remove_tabnl i) as [i0 ch0] eqn:Er. cbn [fst].
+      destruct (remove_tabnl_sv (c_acceptInvalid c) i) as [i0 ch0] eqn:Er. cbn [fst].
       destruct ch0.
       - rewrite handleError_quiet. reflexivity.
-      - pose proof (remove_unchanged i) as H. rewrite Er in H. cbn [fst snd] in H. rewrite (H eq_refl). reflexivity. }
+      - pose proof (remove_sv_unchanged (c_acceptInvalid c) i) as H. rewrite Er in H. cbn [fst snd] in H. rewrite (H eq_refl). reflexivity. }
     destruct ch.
     - rewrite handleError_quiet. apply Hstart; reflexivity.
     - rewrite <- (Hi eq_refl). apply Hstart; reflexivity.
   Qed.
 
   Theorem clean_congruence (x y : str) (base : option url) :
-    clean x = clean y -> BasicParser idna_raw c x base None None = BasicParser idna_raw c y base None None.
+    clean_sv a x = clean_sv a y -> BasicParser idna_raw c x base None None = BasicParser idna_raw c y base None None.
   Proof. intros H. rewrite !BasicParser_factors, H. reflexivity. Qed.
 
-  Corollary Parse_clean_congruence (x y : str) : clean x = clean y -> Parse idna_raw c x = Parse idna_raw c y.
+  Corollary Parse_clean_congruence (x y : str) : clean_sv a x = clean_sv a y -> Parse idna_raw c x = Parse idna_raw c y.
   Proof. intros H. unfold Parse. rewrite (clean_congruence x y None H). reflexivity. Qed.
 
-  Corollary UrlParse_clean_congruence (b : url) (x y : str) : clean x = clean y -> UrlParse idna_raw c b x = UrlParse idna_raw c b y.
+  Corollary UrlParse_clean_congruence (b : url) (x y : str) : clean_sv a x = clean_sv a y -> UrlParse idna_raw c b x = UrlParse idna_raw c b y.
   Proof. intros H. unfold UrlParse. rewrite (clean_congruence x y (Some b) H). reflexivity. Qed.
 End Clean.
 
@@ -102,4 +117,11 @@ Lemma remove_tabnl_insert (x y : str) (t : N) : isTabOrNewline t = true ->
   fst (remove_tabnl (x ++ t :: y)) = fst (remove_tabnl (x ++ y)).
 Proof.
   intros Ht. unfold remove_tabnl. cbn [fst]. rewrite !filter_app. cbn [filter]. rewrite Ht. reflexivity.
+Qed.
+
+(* on valid UTF-8 the scalar-value reading changes nothing: removal is the plain byte-wise removal *)
+Lemma remove_tabnl_sv_valid a s : valid_utf8 s = true -> remove_tabnl_sv a s = remove_tabnl s.
+Proof.
+  intros H. unfold remove_tabnl_sv. destruct (remove_tabnl s) as [i ch]. rewrite H. cbn [negb].
+  rewrite Bool.andb_false_r. reflexivity.
 Qed.
